@@ -7,10 +7,14 @@ DT = {"f64": torch.float64, "f32": torch.float32, "c128": torch.complex128, "c64
 
 
 def fill_re(f, p, a, i, j, b):
+    if f == 0:
+        return 0 * (a + i + j + b)
     return ((f * 29 + p * p * 13 + a * a * 7 + i * i * 3 + j * 5 + b * b * 11 + a * i + 2 * i * b + a * b * j + p * i * j) % 7) - 3
 
 
 def fill_im(f, p, a, i, j, b):
+    if f == 0:
+        return 0 * (a + i + j + b)
     return ((f * 23 + p * 5 + a * 3 + i * i * 7 + j * j * 11 + b * 13 + a * i * b + p * j) % 5) - 2
 
 
